@@ -22,7 +22,7 @@ RULE = ("two modes. ENUMERATED: for each of N fixed systems (quick 6, thorough 2
         "(schedule signature, event-log digest). Exhaustive over tapes of length L for the chosen systems, not over systems")
 ASSUMPTIONS = wa.ASSUMPTIONS
 REAL_VS_STUB = wa.REAL_VS_STUB
-PROBES = wa.PROBES + ["interior_kept_residues", "start_option", "cycles_option", "supplied_and_generated_in_one_system", "enumerated_step_tape", "enumerated_attempt_tape",
+PROBES = wa.PROBES + ["large_system_second_tree", "interior_kept_residues", "start_option", "cycles_option", "supplied_and_generated_in_one_system", "enumerated_step_tape", "enumerated_attempt_tape",
                       "enumerated_ternary_step_tape", "enumerated_start_tape"]
 SYS_PROFILE = {"shapes": ["linear", "linear", "star", "comb", "ring", "tree"], "maxres": 8, "max_molecules": 4,
                "max_count": 2, "n_entries": (1, 2), "box_modes": ["cubic", "noncubic"], "vsites": False,
@@ -68,6 +68,9 @@ def gen_job(verif_seed, tier, index):
     nenum = NSYS[tier] * _per(tier)
     if index >= nenum:
         job, st = jobgen.base_job(PROP, verif_seed, tier, index, SAMPLED_PROFILE)
+        if st.gen.random() < 0.012 and jobgen.make_large_system(job, st.gen):
+            job["mode"] = "sampled"
+            return job
         r = st.gen.random()
         if r < 0.15 and len(job["spec"]["restypes"]) >= 2:
             jobgen.make_interior_kept(job, st.gen)
@@ -120,6 +123,8 @@ def _tag(job, res):
         res["probes"]["enumerated_ternary_step_tape"] = 1
     elif job.get("mode") == "enum_start":
         res["probes"]["enumerated_start_tape"] = 1
+    if job.get("large_system"):
+        res["probes"]["large_system_second_tree"] = 1
     if job.get("interior_kept"):
         res["probes"]["interior_kept_residues"] = 1
     if job["opts"].get("start"):
